@@ -1010,6 +1010,10 @@ class _ColumnsParsedFmt:
             result.min_w = -1
             result.max_w = -1
         elif width_fmt:
+            i = width_fmt.find('(')
+            if i >= 0 and width_fmt.endswith(')'):
+                # "3-10(7)": actual width annotation produced by to_fmt_str; ignore it
+                width_fmt = width_fmt[:i]
             chunks = width_fmt.split('-')
             if len(chunks) > 2:
                 raise ValueError(f"Invalid width range: '{width_fmt}'")
